@@ -195,7 +195,7 @@ pub fn exhaustive_graph(n: usize, code: u64, variant: u64, rng: &mut Rng) -> Gra
         stmts.insert(pos, Stmt::Marker);
         files.push(FileSpec { path: paths[i].clone(), stmts });
     }
-    GraphSpec { files, extra_dirs: vec!["w/x".into()], bases, fmt: Fmt::draw(rng), merge_imports: false }
+    GraphSpec { files, extra_dirs: vec!["w/x".into()], bases, fmt: Fmt::draw(rng), merge_imports: false, raw_text: Default::default() }
 }
 
 /// C03's exhaustive section: every acyclic use/forward graph over `n` <= 3 files (files ordered, edges
@@ -261,7 +261,45 @@ pub fn exhaustive_c03_graph(n: usize, code: u64, variant: u64, rng: &mut Rng) ->
     for f in files.iter_mut() {
         f.stmts.push(Stmt::ModuleVars);
     }
-    GraphSpec { files, extra_dirs: vec!["w/x".into()], bases, fmt: Fmt::draw(rng), merge_imports: false }
+    GraphSpec { files, extra_dirs: vec!["w/x".into()], bases, fmt: Fmt::draw(rng), merge_imports: false, raw_text: Default::default() }
+}
+
+/// Byte-identical twins: `w/t.scss` and `w/sub/t.scss` both consist of one load of the url `n` - which
+/// means `w/n.scss` for the one and `w/sub/n.scss` for the other.  The root loads both twins.  Only
+/// `w/sub/n.scss` leads back to the root, so a cycle is reachable exactly through the second twin
+/// (or, acyclic variant, through none).  What a file's loads mean depends on where the FILE is, not
+/// on what its bytes are.
+pub fn twins_graph(rng: &mut Rng) -> GraphSpec {
+    let kind = *rng.pick(&ALL_KINDS);
+    let ld = |kind: LoadKind, url: &str, target: usize, ns: &str| Stmt::Load { kind, url: url.to_string(), target, wrap: Wrap::None, ns: ns.to_string(), with_cfg: false, filter: 0 };
+    let cyclic = rng.chance(2, 3);
+    let swap = rng.chance(1, 2);
+    // files: 0 root, 1 w/t, 2 w/sub/t, 3 w/n, 4 w/sub/n
+    let (first, second) = if swap { (("sub/t", 2), ("t", 1)) } else { (("t", 1), ("sub/t", 2)) };
+    let root_kind = *rng.pick(&[LoadKind::Import, LoadKind::Import, LoadKind::Use, LoadKind::LoadCss]);
+    let root = vec![ld(root_kind, first.0, first.1, "na"), ld(root_kind, second.0, second.1, "nb"), Stmt::Marker];
+    let twin_text = match kind {
+        LoadKind::Use => "@use \"n\" as q;\ntw { f: t; }\n".to_string(),
+        LoadKind::Forward => "@forward \"n\";\ntw { f: t; }\n".to_string(),
+        LoadKind::Import => "@import \"n\";\ntw { f: t; }\n".to_string(),
+        LoadKind::LoadCss => "@use \"sass:meta\";\n@include meta.load-css(\"n\");\ntw { f: t; }\n".to_string(),
+    };
+    let back_kind = *rng.pick(&[LoadKind::Import, LoadKind::Use, LoadKind::Forward, LoadKind::LoadCss]);
+    let mut subn = vec![Stmt::Marker];
+    if cyclic {
+        subn.push(ld(back_kind, "../root", 0, "nr"));
+    }
+    let files = vec![
+        FileSpec { path: "w/root.scss".into(), stmts: root },
+        FileSpec { path: "w/t.scss".into(), stmts: vec![ld(kind, "n", 3, "q")] },
+        FileSpec { path: "w/sub/t.scss".into(), stmts: vec![ld(kind, "n", 4, "q")] },
+        FileSpec { path: "w/n.scss".into(), stmts: vec![Stmt::Marker] },
+        FileSpec { path: "w/sub/n.scss".into(), stmts: subn },
+    ];
+    let mut raw_text = std::collections::BTreeMap::new();
+    raw_text.insert(1, twin_text.clone());
+    raw_text.insert(2, twin_text);
+    GraphSpec { files, extra_dirs: vec![], bases: vec!["w".into()], fmt: Fmt::draw(rng), merge_imports: false, raw_text }
 }
 
 /// A path that differs from `path` only in a way a careless key might ignore.
@@ -369,7 +407,8 @@ pub fn gen_graph(p: &GraphParams, rng: &mut Rng) -> GraphSpec {
         };
         let dir = *rng.pick(&DIRS);
         let form = rng.below(8);
-        let css_leaf = !p.c03 && edges[i].is_empty() && rng.chance(1, 3);
+        // (C03 graphs: a plain css file can be a module too - it has css but no members; fewer of them)
+        let css_leaf = edges[i].is_empty() && if p.c03 { rng.chance(1, 8) } else { rng.chance(1, 3) };
         let fname = match form {
             _ if css_leaf => {
                 if rng.chance(1, 3) {
@@ -462,7 +501,7 @@ pub fn gen_graph(p: &GraphParams, rng: &mut Rng) -> GraphSpec {
             stmts.push(Stmt::Load { kind, url, target: j, wrap, ns: format!("n{k}"), with_cfg, filter: 0 });
         }
         let pos = rng.usize(stmts.len() + 1);
-        stmts.insert(pos, if p.c03 { Stmt::ModuleVars } else { Stmt::Marker });
+        stmts.insert(pos, if p.c03 && !paths[i].ends_with(".css") { Stmt::ModuleVars } else { Stmt::Marker });
         files.push(FileSpec { path: paths[i].clone(), stmts });
     }
     // a load written in a mixin of a library module and run from one of its users
@@ -518,5 +557,5 @@ pub fn gen_graph(p: &GraphParams, rng: &mut Rng) -> GraphSpec {
         }
     }
     let merge_imports = rng.chance(1, 3);
-    GraphSpec { files, extra_dirs, bases, fmt: Fmt::draw(rng), merge_imports }
+    GraphSpec { files, extra_dirs, bases, fmt: Fmt::draw(rng), merge_imports, raw_text: Default::default() }
 }
